@@ -24,7 +24,8 @@ import traceback
 from pathlib import Path
 
 AS_LIMIT = 1536 * 1024 * 1024
-CPU_SOFT = 45
+CPU_SOFT = 30
+BUDGET = {"hit": False}
 FSIZE_LIMIT = 1024 * 1024 * 1024
 
 
@@ -34,11 +35,12 @@ class CpuBudget(BaseException):
 
 def _child_limits(as_limit=AS_LIMIT, cpu=CPU_SOFT):
     resource.setrlimit(resource.RLIMIT_AS, (as_limit, as_limit))
-    resource.setrlimit(resource.RLIMIT_CPU, (cpu, cpu + 10))
+    resource.setrlimit(resource.RLIMIT_CPU, (cpu, cpu + 20))
     resource.setrlimit(resource.RLIMIT_FSIZE, (FSIZE_LIMIT, FSIZE_LIMIT))
     resource.setrlimit(resource.RLIMIT_CORE, (0, 0))
 
     def on_xcpu(signum, frame):
+        BUDGET["hit"] = True        # third-party code may swallow the exception (olefile: except BaseException)
         raise CpuBudget()
     signal.signal(signal.SIGXCPU, on_xcpu)
 
@@ -103,17 +105,23 @@ def _exc_class(e) -> str:
 
 
 # ------------------------------------------------------------------------------------------- cost mode
-def _consume(gen):
-    n = 0
+def _consume(gen, markers=()):
+    n, expanded = 0, False
     for r in gen:
         n += 1
         # touch the documented accessors once; drop the object afterwards
         try:
-            r.get_full_text()
+            t = r.get_full_text()
+            if markers:
+                t = t + " " + repr(r.get_metadata())
+                expanded = expanded or any(m in t for m in markers)
+            del t
+        except CpuBudget:
+            raise
         except Exception:  # the accessors are other properties' business
             pass
         del r
-    return n
+    return n, expanded
 
 
 def _cost_case(case, data: bytes, tmpdir: str):
@@ -129,20 +137,23 @@ def _cost_case(case, data: bytes, tmpdir: str):
         ru0 = resource.getrusage(resource.RUSAGE_SELF).ru_maxrss
         tracemalloc.start()
         base = tracemalloc.get_traced_memory()[0]
-        outcome, n = "Ok", 0
+        outcome, n, expanded = "Ok", 0, False
         t0 = time.process_time()
         try:
-            n = _consume(extractor(io.BytesIO(data), "x." + case["ext"]))
+            n, expanded = _consume(extractor(io.BytesIO(data), "x." + case["ext"]), tuple(case.get("markers") or ()))
         except CpuBudget:
             outcome = "CpuBudget"
         except RecursionError:
             outcome = "Raised:RecursionError"
         except BaseException as e:  # noqa
             outcome = _exc_class(e)
+        signal.signal(signal.SIGXCPU, signal.SIG_IGN)
         peak = tracemalloc.get_traced_memory()[1] - base
         tracemalloc.stop()
+        if BUDGET["hit"]:
+            outcome = "CpuBudget"
         ru1 = resource.getrusage(resource.RUSAGE_SELF).ru_maxrss
-        return {"outcome": outcome, "peak": int(peak), "results": n, "rss_kb": int(ru1), "rss0_kb": int(ru0),
+        return {"outcome": outcome, "peak": int(peak), "results": n, "expanded": bool(expanded), "rss_kb": int(ru1), "rss0_kb": int(ru0),
                 "cpu_s": round(time.process_time() - t0, 3)}
     return run
 
@@ -256,15 +267,16 @@ def _limits_case(sc, tmpdir):
                 return f
             sharepoint2text.open = opn          # module global shadows the builtin for read_file only
             # the extractor of the route is replaced by a recording stub when the scenario asks for it
-            if sc.get("stub"):
-                from sharepoint2text.parsing import router
-                import importlib
-                mod, fn = router._EXTRACTOR_REGISTRY[sc["route"]]
+            from sharepoint2text.parsing import router
+            import importlib
+            mod, fn = _need(router, "_EXTRACTOR_REGISTRY")[sc["route"]]
+            real = getattr(importlib.import_module(mod), fn)
 
-                def stub(stream, path=None):
-                    ev.append({"a": "Extract", "n": len(stream.getbuffer())})
-                    return iter(())
-                setattr(importlib.import_module(mod), fn, stub)
+            def wrapped(stream, path=None):
+                ev.append({"a": "Extract", "n": len(stream.getbuffer())})
+                # big sparse files: the content is irrelevant, the extractor is not run on 100 MB of zeros
+                return iter(()) if sc.get("stub") else real(stream, path)
+            setattr(importlib.import_module(mod), fn, wrapped)
             kw = {} if sc["max"] is None else {"max_file_size": sc["max"]}
             ev.append(outcome_of(lambda: sharepoint2text.read_file(path, **kw)))
         elif kind == "sevenz_size":
@@ -292,8 +304,7 @@ def _limits_case(sc, tmpdir):
                 _need(AX, "configure_archive_extraction")(max_memory_size=lim)
             cfg = _need(AX, "_config")
             eff = int(cfg.max_memory_size)
-            data = base64.b64decode(sc["archive"])
-            depth = {"n": 0}
+            data = Path(sc["archive_file"]).read_bytes()
             # zip
             zopen = zipfile.ZipFile.open
 
